@@ -11,9 +11,11 @@
     app/controller.go   addMaturedAmountsToBalance, handleDelegationRewards (accrual loop),
                         matureDelegationRewards
   written against decoded records (address, integer amount, height).  The model follows what the
-  code DOES: `Coin.Minus` only refuses a negative *result*, `Coin.Plus` refuses nothing, the
-  pending-undelegation range prefix is `deleg_p_<height>` without the trailing separator (S17)
-  whereas the pending-rewards prefix `delegRwz_pending_<height>_` is exact.  The sign check on the
+  code DOES: `Coin.Minus` only refuses a negative *result*, `Coin.Plus` refuses nothing.  The
+  pending-undelegation range prefix is `deleg_p_<height>_` since commit 4adafc1 (switch
+  `Cfg.sepPrefix = true`); before it was `deleg_p_<height>` without the trailing separator (S17,
+  `sepPrefix = false`, kept so that the old behaviour and its exact arithmetic condition stay
+  theorems); the pending-rewards prefix `delegRwz_pending_<height>_` was always exact.  The sign check on the
   amount of undelegate / withdraw / reinvest (`!coin.IsValid()`, added by commit 1db1c08; S5) is the
   switch `Cfg.checkSign`: `true` is the code as it is, `false` the code before that commit, kept so
   that the necessity of the check is a theorem.  Unknown / foreign currencies (S18) are not
@@ -50,6 +52,8 @@ structure Cfg (A : Type) where
   addrLt : A → A → Bool
   /-- runUndelegate / runDeleWithdraw / runReinvest refuse `!coin.IsValid()` (commit 1db1c08) -/
   checkSign : Bool := true
+  /-- `IteratePendingAmounts` ends its range prefix with the separator (commit 4adafc1) -/
+  sepPrefix : Bool := true
 
 /-- the records of the committed tree that the mechanism touches -/
 structure St (A : Type) where
@@ -149,8 +153,8 @@ def donate (c : Cfg A) (s : St A) (a : A) (amt : Int) (checked : Bool) : Except 
 
 /-! ## key shapes -/
 
-/-- `strconv.FormatInt h` is a byte prefix of `strconv.FormatInt h'`: dropping last digits of `h'`
-    reaches `h`.  Fuel = `h'` (structural recursion so that the kernel can evaluate it). -/
+/-- (the OLD, un-separated prefix) `strconv.FormatInt h` is a byte prefix of
+    `strconv.FormatInt h'`: dropping last digits of `h'` reaches `h`.  Fuel = `h'` (structural recursion so that the kernel can evaluate it). -/
 def decPrefixAux : Nat → Nat → Nat → Bool
   | 0, h, h' => h' == h
   | fuel + 1, h, h' => if h' == h then true else if h' < 10 then false else decPrefixAux fuel h (h' / 10)
@@ -187,10 +191,11 @@ def sortBy {K : Type} (lt : K → K → Bool) : List K → List K
   | [] => []
   | x :: t => insertBy lt x (sortBy lt t)
 
-/-- keys reported by `Store.IteratePendingAmounts(height)`: range
-    [`deleg_p_<h>`, `deleg_p_<h>~`) — every key whose height *starts with* the digits of `h` -/
+/-- keys reported by `Store.IteratePendingAmounts(height)`.  Since 4adafc1 the range is
+    [`deleg_p_<h>_`, `deleg_p_<h>~`): exactly the keys of height `h`.  Before (`sepPrefix = false`)
+    it was [`deleg_p_<h>`, `deleg_p_<h>~`): every key whose height *starts with* the digits of `h`. -/
 def visitPending (c : Cfg A) (h : Nat) (pending : List ((Nat × A) × Int)) : List (Nat × A) :=
-  sortBy (keyLt c) ((akeys pending).filter (fun k => decPrefix h k.1))
+  sortBy (keyLt c) ((akeys pending).filter (fun k => if c.sepPrefix then k.1 == h else decPrefix h k.1))
 
 /-- keys reported by `DelegRewardStore.IteratePD(height)`: range
     [`delegRwz_pending_<h>_`, `delegRwz_pending_<h>~`) — exactly the keys of height `h` -/
